@@ -20,6 +20,40 @@ from pyvc import ext_tables  # noqa: E402
 ext_tables.chain(X.ModelsProxy)  # getattr-built caches / lookup tables: np.bincount, np.argsort, np.searchsorted, np.add.at, np.flatnonzero on symbolic columns
 
 
+_sym_tree = sym_tree
+_LAYOUT = [None]
+# storage layout of the owner's columns (pyvc/layout.py): what numpy allocates itself (unit stride), or strided views of a 2-D table
+# (`Tree(n, x=m[:, 0], y=m[:, 1], ...)`: `padding1d` keeps `v[:n]`, a view, when the dtype already fits)
+LAYOUTS = (("owner-columns-contiguous", True), ("owner-columns-strided-views-of-a-table", False))
+
+
+def sym_tree(S, name="t", **kw):
+    """contracts.common.sym_tree; inside `in_both_layouts` every column carries the contiguity flag of the variant being set up
+    (outside, the layout is unrecorded: a layout-dependent library function then explores both outcomes)"""
+    t = _sym_tree(S, name, **kw)
+    if _LAYOUT[0] is not None:
+        for a in t.fields["ndata"].items.values():
+            a.contiguous = _LAYOUT[0]
+    return t
+
+
+def in_both_layouts(spec):
+    """a setup (or a dict of variants) -> variants: each one once per storage layout of the owner's columns"""
+    base = spec if isinstance(spec, dict) else {"": spec}
+    out = {}
+    for nm, f in base.items():
+        for lab, flag in LAYOUTS:
+            def g(S, _f=f, _flag=flag):
+                _LAYOUT[0] = _flag
+                try:
+                    return _f(S)
+                finally:
+                    _LAYOUT[0] = None
+
+            out[(nm + " | " if nm else "") + lab] = g
+    return out
+
+
 def built(S, cls, args, declared):
     """An arbitrary instance of a view class = what the REAL constructor builds from arbitrary arguments (`S.new`: `cls.__init__` is
     interpreted from the repository, so a field a change adds to the constructor is there, with the value the constructor computes, and
@@ -92,7 +126,7 @@ def register(R: Registry):
         return to_z3(v["result"], c.kind) == z3.Select(c.arr, to_z3(n.fields["idx"], "int"))
 
     R.add(f"{NODE}:Node.__getitem__", prop="C09", pure_inline=True,
-          variants={k: (lambda S, _k=k: dict(self=node_obj(S, sym_tree(S, "t", frozen=True)), key=_k)) for k in KEYS},
+          variants=in_both_layouts({k: (lambda S, _k=k: dict(self=node_obj(S, sym_tree(S, "t", frozen=True)), key=_k)) for k in KEYS}),
           requires=[("handle-in-range", in_range)],
           ensures=[("reads-the-owner-column-at-call-time", reads_owner_now)])
 
@@ -123,18 +157,18 @@ def register(R: Registry):
         return f
 
     R.add(f"{NODE}:Node.__setitem__", prop="C09", pure_inline=True,
-          variants={k: set_setup(k) for k in KEYS},
+          variants=in_both_layouts({k: set_setup(k) for k in KEYS}),
           requires=[("handle-in-range", in_range)],
           ensures=[("write-through-and-nothing-else", writes_through)])
 
     # property getters / setters delegate to the item accessors
     for k in KEYS:
         R.add(f"{NODE}:Node.{k}", prop="C09", pure_inline=True,
-              setup=lambda S: dict(self=node_obj(S, sym_tree(S, "t", frozen=True))),
+              variants=in_both_layouts(lambda S: dict(self=node_obj(S, sym_tree(S, "t", frozen=True)))),
               requires=[("handle-in-range", in_range)],
               ensures=[(f"attribute-{k}-is-the-column-entry", (lambda kk: lambda E, v, o: to_z3(v["result"], COLS[kk]) == z3.Select(col(v["self"].fields["attach"], kk).arr, to_z3(v["self"].fields["idx"], "int")))(k))])
         R.add(f"{NODE}:Node.{k}@setter", prop="C09", pure_inline=True,
-              setup=(lambda kk: lambda S: dict(self=node_obj(S, sym_tree(S, "t", frozen=False)), v=(S.int("v") if COLS[kk] == "int" else S.real("v")), k=kk))(k),
+              variants=in_both_layouts((lambda kk: lambda S: dict(self=node_obj(S, sym_tree(S, "t", frozen=False)), v=(S.int("v") if COLS[kk] == "int" else S.real("v")), k=kk))(k)),
               requires=[("handle-in-range", in_range)],
               ensures=[("write-through-and-nothing-else", writes_through)])
 
@@ -642,7 +676,7 @@ def register_handles(R, path_obj):
         return to_z3(v["result"], c.kind) == z3.Select(c.arr, wrapped(to_z3(n.fields["idx"], "int"), c.nz()))
 
     R.add(f"{NODE}:Node.__getitem__", prop="C09", pure_inline=True,
-          variants={k: (lambda S, _k=k: dict(self=node_obj(S, sym_tree(S, "t", frozen=True)), key=_k)) for k in KEYS},
+          variants=in_both_layouts({k: (lambda S, _k=k: dict(self=node_obj(S, sym_tree(S, "t", frozen=True)), key=_k)) for k in KEYS}),
           requires=[("handle-position-in-[-n,n)", any_position)],
           ensures=[("reads-the-owner-column-at-the-wrapped-position-at-call-time", reads_wrapped)], options=dict(LOOSE))
 
@@ -664,7 +698,7 @@ def register_handles(R, path_obj):
         return z3.And(*out)
 
     R.add(f"{NODE}:Node.__setitem__", prop="C09", pure_inline=True,
-          variants={k: (lambda S, _k=k: dict(self=node_obj(S, sym_tree(S, "t", frozen=False)), k=_k, v=(S.int("v") if COLS[_k] == "int" else S.real("v")))) for k in KEYS},
+          variants=in_both_layouts({k: (lambda S, _k=k: dict(self=node_obj(S, sym_tree(S, "t", frozen=False)), k=_k, v=(S.int("v") if COLS[_k] == "int" else S.real("v")))) for k in KEYS}),
           requires=[("handle-position-in-[-n,n)", any_position)],
           ensures=[("write-through-at-the-wrapped-position-and-nothing-else", writes_wrapped)], options=dict(LOOSE))
 
@@ -702,7 +736,7 @@ def register_handles(R, path_obj):
         return to_z3(v["result"], c.kind) == z3.Select(c.arr, pidx(p).get(i).z)
 
     R.add(f"{NODE}:Node.__getitem__", prop="C09", pure_inline=True,
-          variants={k: (lambda S, _k=k: dict(self=pnode(S), key=_k)) for k in KEYS},
+          variants=in_both_layouts({k: (lambda S, _k=k: dict(self=pnode(S), key=_k)) for k in KEYS}),
           requires=[("position-within-the-window-window-within-the-owner", pnode_pre)],
           ensures=[("path-node-reads-the-owner's-row-its-window-position-names-at-call-time", pnode_reads)], options=dict(LOOSE))
 
@@ -729,7 +763,7 @@ def register_handles(R, path_obj):
 
     for fn, want in (("is_root", root_row), ("is_soma", soma_row)):
         R.add(f"{TREE}:Tree.Node.{fn}", prop="C09",
-              setup=lambda S: dict(self=node_obj(S, sym_tree(S, "t", frozen=True))),
+              variants=in_both_layouts(lambda S: dict(self=node_obj(S, sym_tree(S, "t", frozen=True)))),
               requires=[("handle-position-in-[-n,n)", any_position)],
               ensures=[({"is_root": "true-exactly-when-the-row-behind-the-handle-has-parent--1-at-call-time",
                          "is_soma": "true-exactly-when-the-row-behind-the-handle-is-a-root-of-soma-type-at-call-time"}[fn],
@@ -997,7 +1031,7 @@ def register_branch(R, path_obj):
         return (isinstance(r, X.SRows) and r.inner == (2,)) or (isinstance(r, NArr) and r.shape == (0, 2))
 
     R.add(f"{COMP}:Compartments.get_ndata", prop="C09",
-          variants={k: (lambda S, _k=k: comps_setup(S, key=_k)) for k in KEYS}, requires=CPRE,
+          variants=in_both_layouts({k: (lambda S, _k=k: comps_setup(S, key=_k)) for k in KEYS}), requires=CPRE,
           ensures=[("one-row-(parent-value,child-value)-per-compartment-in-order-in-a-fresh-array", rows_post(lambda v: v["key"])),
                    # found a defect (fixed in /repo, see known_findings.jsonl): np.array([]) of an EMPTY Compartments (the segments of a
                    # one-node tree) had shape (0,), not the documented (n_sample, 2)
@@ -1005,7 +1039,7 @@ def register_branch(R, path_obj):
           options=dict(OPTS))
 
     for k in KEYS:
-        R.add(f"{COMP}:Compartments.{k}", prop="C09", setup=lambda S: comps_setup(S), requires=CPRE,
+        R.add(f"{COMP}:Compartments.{k}", prop="C09", variants=in_both_layouts(lambda S: comps_setup(S)), requires=CPRE,
               ensures=[(f"one-row-(parent-{k},child-{k})-per-compartment-in-order-in-a-fresh-array", rows_post(lambda v, _k=k: _k))], options=dict(OPTS))
 
     def stacked_post(names):
@@ -1025,7 +1059,7 @@ def register_branch(R, path_obj):
     # found a defect (fixed in /repo): on an EMPTY Compartments (a one-node tree has no segment) xyz()/xyzr() raised numpy's AxisError
     # (a ValueError) instead of returning an array of shape (0, 2, 3) / (0, 2, 4): obligation exc/unexpected-ValueError
     for fn, names in (("xyz", ("x", "y", "z")), ("xyzr", ("x", "y", "z", "r"))):
-        R.add(f"{COMP}:Compartments.{fn}", prop="C09", setup=lambda S: comps_setup(S), requires=CPRE,
+        R.add(f"{COMP}:Compartments.{fn}", prop="C09", variants=in_both_layouts(lambda S: comps_setup(S)), requires=CPRE,
               ensures=[(f"(n_sample,2,{len(names)})-array-of-the-(parent,child)-{'-'.join(names)}-in-order", stacked_post(names))], options=dict(OPTS))
 
     # ------------------------------------------------------------------ Branch.from_xyzr
